@@ -39,6 +39,24 @@ func c09hook(n *nodeutil.Node, r node.ChildRequest) (node.Node, error) {
 	return n.New(r.Meta, child)
 }
 
+func c09qualify(v interface{}) interface{} {
+	switch x := v.(type) {
+	case map[string]interface{}:
+		out := map[string]interface{}{}
+		for k, e := range x {
+			out["m:"+k] = c09qualify(e)
+		}
+		return out
+	case []interface{}:
+		out := make([]interface{}, len(x))
+		for i, e := range x {
+			out[i] = c09qualify(e)
+		}
+		return out
+	}
+	return v
+}
+
 // the hooked store with its containers back under their schema names
 func c09unhook(v interface{}) interface{} {
 	switch x := v.(type) {
@@ -363,7 +381,7 @@ func C09(c *core.Ctx) {
 			steps := 1 + r.Intn(8)
 			var hist []string
 			for k := 0; k < steps; k++ {
-				srcKind := core.Pick(r, []string{"refstore", "refstore", "json", "reflect-map"})
+				srcKind := core.Pick(r, []string{"refstore", "refstore", "json", "json-qualified", "reflect-map"})
 				doc := gen.GenChoiceBody(r, kids, 25+r.Intn(40))
 				edoc := doc
 				if inList {
@@ -377,6 +395,10 @@ func C09(c *core.Ctx) {
 					src = refstore.NewBody(nil, entryKids, gen.Clone(edoc), "src")
 				case "json":
 					jb, _ := json.Marshal(gen.ToMap(entryKids, edoc))
+					src, _ = nodeutil.ReadJSON(string(jb))
+				case "json-qualified":
+					// every member name in its module-qualified form (RFC 7951 §4 allows it everywhere)
+					jb, _ := json.Marshal(c09qualify(gen.ToMap(entryKids, edoc)))
 					src, _ = nodeutil.ReadJSON(string(jb))
 				case "reflect-map":
 					src = nodeutil.ReflectChild(gen.ToMap(entryKids, edoc))
